@@ -148,7 +148,7 @@ def rn_rename(case, ctx):
             ids = g["bins/chrom"][:].astype("int32")
             del g["bins/chrom"]
             ds = g["bins"].create_dataset("chrom", data=ids, dtype="int32")
-            ds.attrs["enum_path"] = (group.rstrip("/") + "/chroms/name")
+            ds.attrs["enum_path"] = "/chroms/name"
     raw0 = _raw_rest(path, group)
     sib0 = _raw_rest(path, sib, True) if case.get("sibling") else ""
     clr = cooler.Cooler(uri)
